@@ -182,7 +182,8 @@ func processFile(filePath string, ctxt *processors.Context, checkOnly bool) erro
 
 	indent := 0
 	for scanner.Scan() {
-		line := scanner.Bytes()
+		// the scanner drops one carriage return per pass; drop them all, or every further run changes the file again
+		line := bytes.TrimRight(scanner.Bytes(), "\r")
 		line, indent, err = processLine(line, indent)
 		if err != nil {
 			// don't write a file with the offending line missing
